@@ -191,42 +191,64 @@ hands out first is decided inside tokio's timer wheel (every slot is a LIFO stac
 a lower level reverses it, so the order depends on how the deadline bits relate to the wheel's
 elapsed time when the entry was inserted).  Both orders are behaviours of the code; the model fixes
 the arming order.  The driver therefore lets time pass deadline by deadline and, whenever several
-calls share the earliest deadline, may serve that group in reversed arming order - guided by the
+calls share the earliest deadline, may serve that group in any order - guided by the
 reply the implementation gave for this step (passed behind `??`).  Whatever it picks is compared
 with the implementation as usual. -/
 
-/-- Reverses the arming order within the calls whose deadline is `d`. -/
-def reverseTies (s : HState) (d : Nat) : HState :=
-  let grp := s.active.filter (·.deadline == d)
-  let seqs := grp.map (·.tseq)
-  let pairs := seqs.zip seqs.reverse
-  { s with active := s.active.map fun cl =>
-      if cl.deadline == d then
-        match pairs.find? (·.1 == cl.tseq) with
-        | some (_, q) => { cl with tseq := q }
-        | none => cl
-      else cl }
+def insertsAt (x : Nat) : List Nat → List (List Nat)
+  | [] => [[x]]
+  | y :: ys => (x :: y :: ys) :: (insertsAt x ys).map (y :: ·)
 
-/-- Lets `dt` pass one deadline at a time; `bits` says for each group of simultaneously due calls
-met on the way whether it is served in reversed arming order.  Returns the number of such groups. -/
-def advSplit (cfg : Cfg) (target : Nat) : Nat → HState → List Bool → List Out → Nat → HState × List Out × Nat
-  | 0, s, _, acc, n => (s, acc, n)
-  | fuel + 1, s, bits, acc, n =>
+/-- All orders of a list (the first one is the list itself). -/
+def orders : List Nat → List (List Nat)
+  | [] => [[]]
+  | x :: xs => (orders xs).flatMap (insertsAt x)
+
+/-- Re-assigns the arming numbers within the calls whose deadline is `d`: the `k`-th order of their
+arming numbers (`k = 0`: unchanged). -/
+def permuteTies (s : HState) (d : Nat) (k : Nat) : HState :=
+  let grp := s.active.filter (·.deadline == d)
+  let seqs := (grp.map (·.tseq)).toArray.qsort (· < ·) |>.toList
+  match (orders seqs)[k]? with
+  | none => s
+  | some perm =>
+    let pairs := seqs.zip perm
+    { s with active := s.active.map fun cl =>
+        if cl.deadline == d then
+          match pairs.find? (·.1 == cl.tseq) with
+          | some (_, q) => { cl with tseq := q }
+          | none => cl
+        else cl }
+
+/-- Lets time pass until `target` one deadline at a time; `choices` says for each group of
+simultaneously due calls met on the way in which order it is served.  Returns the sizes of the
+groups met. -/
+def advSplit (cfg : Cfg) (target : Nat) :
+    Nat → HState → List Nat → List Out → List Nat → HState × List Out × List Nat
+  | 0, s, _, acc, ns => (s, acc, ns)
+  | fuel + 1, s, choices, acc, ns =>
     match nextDue s target with
     | none =>
       let (s', o) := step cfg s (.adv (target - s.now))
-      (s', acc ++ o, n)
+      (s', acc ++ o, ns)
     | some (d, _) =>
       let grp := s.active.filter (·.deadline == d)
       let tied := grp.length ≥ 2
-      let (flip, bits') := if tied then (bits.headD false, bits.drop 1) else (false, bits)
-      let s0 := if flip then reverseTies s d else s
+      let (k, choices') := if tied then (choices.headD 0, choices.drop 1) else (0, choices)
+      let s0 := if k != 0 then permuteTies s d k else s
       let (s', o) := step cfg s0 (.adv (d - s0.now))
-      advSplit cfg target fuel s' bits' (acc ++ o) (if tied then n + 1 else n)
+      advSplit cfg target fuel s' choices' (acc ++ o) (if tied then ns ++ [grp.length] else ns)
 
-def bitStrings : Nat → List (List Bool)
-  | 0 => [[]]
-  | n + 1 => (bitStrings n).flatMap fun b => [false :: b, true :: b]
+def factorial : Nat → Nat
+  | 0 => 1
+  | n + 1 => (n + 1) * factorial n
+
+/-- Choice vectors for groups of the given sizes (mixed radix), at most `limit` of them. -/
+def choiceVectors (sizes : List Nat) (limit : Nat) : List (List Nat) :=
+  let radices := sizes.map fun n => factorial (min n 4)
+  let total := min limit (radices.foldl (· * ·) 1)
+  (List.range total).map fun i =>
+    (radices.foldl (fun (p : Nat × List Nat) r => (p.1 / r, p.2 ++ [p.1 % r])) (i, [])).2
 
 /-- Renders the outcome of one `hev` step (renaming, events before sends, exemption map). -/
 def renderStep (nd : NodeSt) (s' : HState) (outs0 : List Out) : NodeSt × String :=
@@ -260,12 +282,12 @@ def hOne (st : HandlerSt) (toks : List String) (hint : Option String := none) : 
       | .adv dt =>
         let target := nd.st.now + dt
         -- arming order first; other orders only if simultaneously due calls were met
-        let (s0, o0, n) := advSplit cfg target 10000 nd.st [] [] 0
+        let (s0, o0, sizes) := advSplit cfg target 10000 nd.st [] [] []
         let (nd0, r0) := renderStep nd s0 o0
-        if n == 0 || hint == some r0 || hint == none then put nd0 r0 else
-        let cands := (bitStrings (min n 4)).filter (fun b => b.any (fun x => x))
-        let found := cands.findSome? fun b =>
-          let (s1, o1, _) := advSplit cfg target 10000 nd.st b [] 0
+        if sizes.isEmpty || hint == some r0 || hint == none then put nd0 r0 else
+        let cands := (choiceVectors sizes 400).drop 1
+        let found := cands.findSome? fun ch =>
+          let (s1, o1, _) := advSplit cfg target 10000 nd.st ch [] []
           let (nd1, r1) := renderStep nd s1 o1
           if hint == some r1 then some (nd1, r1) else none
         match found with
